@@ -65,6 +65,8 @@ package h2
 //@   ensures[stream-conservation] w.windowSize + w.sentS == old(w.windowSize) + old(w.sentS)
 //@   ensures[monotone] sentConn >= old(sentConn) && w.sentS >= old(w.sentS)
 //@   ensures[no-stranding] blocked(w, *connectionWindowSize)
+//@   ensures *connectionWindowSize <= old(*connectionWindowSize) && (*connectionWindowSize >= 0 || *connectionWindowSize == old(*connectionWindowSize))
+//@   ensures w.windowSize <= old(w.windowSize) && (w.windowSize >= 0 || w.windowSize == old(w.windowSize))
 //@   loop 0 invariant e == w.queue.gfront
 //@   loop 0 invariant *connectionWindowSize + sentConn == old(*connectionWindowSize) + old(sentConn)
 //@   loop 0 invariant w.windowSize + w.sentS == old(w.windowSize) + old(w.sentS)
@@ -79,3 +81,106 @@ package h2
 //@   serves C09
 //@   requires f != nil
 //@   ensures result == len(f.data) && result >= 0
+
+// ---------------------------------------------------------------------------------------------
+// C09: per-relay window arithmetic. total(w) = credit granted so far on a stream (what is left plus what was
+// sent); connTotal likewise for the connection. A grant raises the total by exactly the increment; emitting frames
+// never changes a total (conservation, proved for emitEligibleFrames above).
+
+//@ pred total(w *outputBuffer) = w.windowSize + w.sentS
+//@ pred bufsOK(r *relay) = r.outputBuffers != nil &&
+//@      (forall k uint32 :: has(r.outputBuffers, k) ==> r.outputBuffers[k] != nil && allocated(r.outputBuffers[k])) &&
+//@      (forall j uint32, k uint32 :: has(r.outputBuffers, j) && has(r.outputBuffers, k) && j != k ==> r.outputBuffers[j] != r.outputBuffers[k])
+// Magnitudes: RFC 7540 6.9.1 caps a window at 2^31-1; the arithmetic below is proved free of wrap-around for windows
+// within +-b (entry points assume b = 2^40, internal helpers accept 2^41).
+//@ pred within(r *relay, b int) = 0 - b <= r.connectionWindowSize && r.connectionWindowSize <= b &&
+//@      (forall k uint32 :: has(r.outputBuffers, k) ==> 0 - b <= r.outputBuffers[k].windowSize && r.outputBuffers[k].windowSize <= b)
+
+//@ func (*relay).outputBuffer
+//@   serves C09
+//@   requires r != nil && bufsOK(r)
+//@   modifies r.outputBuffers[*]
+//@   ensures result != nil && has(r.outputBuffers, streamID) && r.outputBuffers[streamID] == result
+//@   ensures old(has(r.outputBuffers, streamID)) ==> result == old(r.outputBuffers[streamID]) && total(result) == old(total(r.outputBuffers[streamID]))
+//@   ensures[new-stream-starts-at-initial-window] !old(has(r.outputBuffers, streamID)) ==>
+//@        fresh(result) && result.windowSize == r.initialWindowSize && result.sentS == 0 && result.queue.gfront == nil
+//@   ensures forall k uint32 :: k != streamID ==> has(r.outputBuffers, k) == old(has(r.outputBuffers, k)) && r.outputBuffers[k] == old(r.outputBuffers[k])
+//@   ensures bufsOK(r)
+
+//@ func (*outputBuffer).enqueue
+//@   serves C09 C08
+//@   requires w != nil
+//@   modifies w.queue.gfront, w.queue.glen, list.Element.gnext
+//@   ensures[fifo-front-unchanged] old(w.queue.gfront) != nil ==> w.queue.gfront == old(w.queue.gfront)
+//@   ensures old(w.queue.gfront) == nil ==> w.queue.gfront != nil && w.queue.gfront.Value == iface(f)
+//@   ensures w.queue.glen == old(w.queue.glen) + 1
+
+//@ func (*relay).updateMaxFrameSize
+//@   serves C09
+//@   requires r != nil
+//@   modifies r.maxFrameSize
+//@   ensures r.maxFrameSize == v
+
+//@ func (*relay).sendQueuedFramesUnderWindowSize
+//@   serves C09
+//@   requires r != nil && !r.flowMu.held && bufsOK(r) && within(r, 2199023255552)
+//@   modifies r.connectionWindowSize, sentConn, outputBuffer.windowSize, outputBuffer.sentS, list.List.gfront, list.List.glen, r.flowMu.held
+//@   ensures[conn-conservation] r.connectionWindowSize + sentConn == old(r.connectionWindowSize + sentConn)
+//@   ensures[stream-conservation] forall k uint32 :: has(r.outputBuffers, k) ==> total(r.outputBuffers[k]) == old(total(r.outputBuffers[k]))
+//@   ensures[no-stranding] forall k uint32 :: has(r.outputBuffers, k) ==> blocked(r.outputBuffers[k], r.connectionWindowSize)
+//@   ensures[lock-released] !r.flowMu.held
+//@   ensures r.connectionWindowSize <= old(r.connectionWindowSize) && (r.connectionWindowSize >= 0 || r.connectionWindowSize == old(r.connectionWindowSize))
+//@   ensures forall k uint32 :: has(r.outputBuffers, k) ==> r.outputBuffers[k].windowSize <= old(r.outputBuffers[k].windowSize) && (r.outputBuffers[k].windowSize >= 0 || r.outputBuffers[k].windowSize == old(r.outputBuffers[k].windowSize))
+//@   loop 0 invariant r.flowMu.held
+//@   loop 0 invariant r.connectionWindowSize + sentConn == old(r.connectionWindowSize + sentConn)
+//@   loop 0 invariant r.connectionWindowSize <= old(r.connectionWindowSize) && (r.connectionWindowSize >= 0 || r.connectionWindowSize == old(r.connectionWindowSize))
+//@   loop 0 invariant forall k uint32 :: has(r.outputBuffers, k) ==> total(r.outputBuffers[k]) == old(total(r.outputBuffers[k]))
+//@   loop 0 invariant forall k uint32 :: has(r.outputBuffers, k) ==> r.outputBuffers[k].windowSize <= old(r.outputBuffers[k].windowSize) && (r.outputBuffers[k].windowSize >= 0 || r.outputBuffers[k].windowSize == old(r.outputBuffers[k].windowSize))
+//@   loop 0 invariant forall k uint32 :: visited(k) ==> blocked(r.outputBuffers[k], r.connectionWindowSize)
+
+//@ func (*relay).enqueueFrame
+//@   serves C09 C08
+//@   requires r != nil && !r.flowMu.held && bufsOK(r) && within(r, 1099511627776)
+//@   modifies r.connectionWindowSize, sentConn, outputBuffer.windowSize, outputBuffer.sentS, list.List.gfront, list.List.glen, list.Element.gnext, r.outputBuffers[*], r.flowMu.held
+//@   ensures[conn-conservation] r.connectionWindowSize + sentConn == old(r.connectionWindowSize + sentConn)
+//@   ensures[no-stranding] blocked(r.outputBuffers[f.StreamID()], r.connectionWindowSize)
+//@   ensures[lock-released] !r.flowMu.held
+
+//@ func (*relay).updateWindow
+//@   serves C09
+//@   requires r != nil && f != nil && !r.flowMu.held && bufsOK(r) && within(r, 1099511627776)
+//@   modifies r.connectionWindowSize, sentConn, outputBuffer.windowSize, outputBuffer.sentS, list.List.gfront, list.List.glen, r.outputBuffers[*], r.flowMu.held
+//@   ensures[connection-grant-exact] f.StreamID == 0 ==> r.connectionWindowSize + sentConn == old(r.connectionWindowSize + sentConn) + f.Increment
+//@   ensures[stream-update-leaves-connection] f.StreamID != 0 ==> r.connectionWindowSize + sentConn == old(r.connectionWindowSize + sentConn)
+//@   ensures[stream-grant-exact] has(r.outputBuffers, f.StreamID) &&
+//@       total(r.outputBuffers[f.StreamID]) == ite(old(has(r.outputBuffers, f.StreamID)), old(total(r.outputBuffers[f.StreamID])), old(r.initialWindowSize)) + f.Increment
+//@   ensures[other-streams-untouched] forall k uint32 :: k != f.StreamID && has(r.outputBuffers, k) ==> old(has(r.outputBuffers, k)) && total(r.outputBuffers[k]) == old(total(r.outputBuffers[k]))
+//@   ensures[no-stranding-on-stream] blocked(r.outputBuffers[f.StreamID], r.connectionWindowSize)
+//@   ensures[no-stranding-after-connection-grant] f.StreamID == 0 ==> forall k uint32 :: has(r.outputBuffers, k) ==> blocked(r.outputBuffers[k], r.connectionWindowSize)
+//@   ensures[lock-released] !r.flowMu.held
+
+//@ func (*relay).updateInitialWindowSize
+//@   serves C09
+//@   requires r != nil && !r.flowMu.held && bufsOK(r) && within(r, 1099511627776)
+//@   modifies r.initialWindowSize, r.connectionWindowSize, sentConn, outputBuffer.windowSize, outputBuffer.sentS, list.List.gfront, list.List.glen, r.flowMu.held
+//@   ensures[initial-window-installed] r.initialWindowSize == v
+//@   ensures[every-stream-moves-by-delta] forall k uint32 :: has(r.outputBuffers, k) ==> total(r.outputBuffers[k]) == old(total(r.outputBuffers[k])) + v - old(r.initialWindowSize)
+//@   ensures[connection-window-untouched] r.connectionWindowSize + sentConn == old(r.connectionWindowSize + sentConn)
+//@   ensures[no-stranding] forall k uint32 :: has(r.outputBuffers, k) ==> blocked(r.outputBuffers[k], r.connectionWindowSize)
+//@   ensures[lock-released] !r.flowMu.held
+//@   loop 0 invariant r.flowMu.held && r.initialWindowSize == v && delta == v - old(r.initialWindowSize)
+//@   loop 0 invariant r.connectionWindowSize == old(r.connectionWindowSize) && sentConn == old(sentConn)
+//@   loop 0 invariant forall k uint32 :: has(r.outputBuffers, k) ==> r.outputBuffers[k].sentS == old(r.outputBuffers[k].sentS) &&
+//@        r.outputBuffers[k].windowSize == old(r.outputBuffers[k].windowSize) + ite(visited(k), delta, 0)
+
+//@ func (*relay).data
+//@   serves C09 C08
+//@   requires r != nil && !r.flowMu.held && bufsOK(r) && within(r, 1099511627776)
+//@   modifies r.connectionWindowSize, sentConn, outputBuffer.windowSize, outputBuffer.sentS, list.List.gfront, list.List.glen, list.Element.gnext, r.outputBuffers[*], r.flowMu.held
+//@   ensures[conn-conservation] r.connectionWindowSize + sentConn == old(r.connectionWindowSize + sentConn)
+//@   ensures[lock-released] !r.flowMu.held
+//@   loop 0 invariant !r.flowMu.held && w != nil && allocated(w) && within(r, 1099511627776)
+//@   loop 0 invariant r.connectionWindowSize + sentConn == old(r.connectionWindowSize + sentConn)
+//@   loop 0 invariant r.connectionWindowSize <= old(r.connectionWindowSize) && (r.connectionWindowSize >= 0 || r.connectionWindowSize == old(r.connectionWindowSize))
+//@   at call 0 of enqueue before assert[frame-within-max-frame-size] len(nextPayload) <= maxPayloadLength
+//@   at call 0 of enqueue before assert[end-stream-only-on-last] as(f, *queuedDataFrame).endStream == (streamEnded && len(data) == 0)
